@@ -7,7 +7,7 @@ from . import executor as E, runtask as R
 META = {
     "explanation": "Guard normal form of the launch condition (EX11), queue routing agreement (EX12), single writer of the "
                    "parallel-mode flag (EX13), slot acquire/release typestate (EX14), pool initialisation (EX15), COND_SLOT "
-                   "agreement on a per-task fresh environment dict (RT8) and the --jobs validation (J1).",
+                   "agreement on a per-task fresh environment dict (RT8) and the --jobs validation (J1). The flag a generated task carries is the one its ExperimentInstance declares (GRP1–GRP6).",
     "rules": ["EX11", "EX12", "EX13", "EX14", "EX15", "RT8", "J1", "GRP1", "GRP2", "GRP3", "GRP4", "GRP5", "GRP6"],
     "assumptions": ["the invariant 'in-flight ops are all parallelizable or there is exactly one' is argued by hand from the guard shape (DESIGN §4.C04)"],
     "trusted": ["ast parser", "own call resolver"],
